@@ -234,6 +234,161 @@ theorem crossJoin_consistent (d : DF) (other : DF) (h : d.Consistent) (ho : othe
   have h2 := ho b (by simpa [flat] using hb)
   simp [h1, h2]
 
+/-! ### join on a condition -/
+
+theorem nullRow_length (n : Nat) : (nullRow n).length = n := List.length_replicate
+
+/-- a successful `joinOnRows` has computed the match matrix, and its result is the explicit expression in it -/
+theorem joinOnRows_ok {how : How} {e : Expr} {ln rn : Nat} {ls rs out : List Row}
+    (h : joinOnRows how e ln rn ls rs = .ok out) :
+    ∃ m : List (List Bool), (ls.mapM fun l => rs.mapM fun r => condHolds e l r) = .ok m ∧
+      out = (match (generalizing := false) how with
+        | .right | .full =>
+          ((ls.zip m).flatMap fun (l, ms) =>
+            joinOnLeft how rn l ((rs.zip ms).filterMap fun (r, b) => if b then some r else none)) ++
+          (rs.zipIdx.filterMap fun (r, j) =>
+            if m.any (fun ms => ms.getD j false) then none else some (nullRow ln ++ r))
+        | _ =>
+          (ls.zip m).flatMap fun (l, ms) =>
+            joinOnLeft how rn l ((rs.zip ms).filterMap fun (r, b) => if b then some r else none)) := by
+  unfold joinOnRows at h
+  obtain ⟨m, hm, h⟩ := bind_ok h
+  exact ⟨m, hm, (pure_ok h).symm⟩
+
+/-- the right rows selected by a row of the match matrix are right rows -/
+theorem partners_mem (rs : List Row) (ms : List Bool) :
+    ∀ p ∈ (rs.zip ms).filterMap (fun (x : Row × Bool) => if x.2 then some x.1 else none), p ∈ rs := by
+  intro p hp
+  obtain ⟨⟨r, b⟩, hz, hf⟩ := List.mem_filterMap.mp hp
+  dsimp only at hf
+  split at hf
+  · cases hf; exact (List.of_mem_zip hz).1
+  · cases hf
+
+/-- width of what one left row contributes -/
+theorem joinOnLeft_width (how : How) (lnames rnames : List String) (l : Row) (partners : List Row)
+    (hl : l.length = lnames.length) (hp : ∀ p ∈ partners, p.length = rnames.length) :
+    ∀ x ∈ joinOnLeft how rnames.length l partners, x.length = (joinOnNames how lnames rnames).length := by
+  intro x hx
+  have hmap : ∀ x ∈ partners.map (l ++ ·), x.length = lnames.length + rnames.length := by
+    intro x hx
+    obtain ⟨p, hp', rfl⟩ := List.mem_map.mp hx
+    rw [List.length_append, hl, hp p hp']
+  have hpad : (l ++ nullRow rnames.length).length = lnames.length + rnames.length := by
+    rw [List.length_append, hl, nullRow_length]
+  cases how with
+  | inner => simpa [joinOnNames] using hmap x (by simpa [joinOnLeft] using hx)
+  | right => simpa [joinOnNames] using hmap x (by simpa [joinOnLeft] using hx)
+  | left =>
+    simp only [joinOnLeft] at hx
+    simp only [joinOnNames, List.length_append]
+    split at hx
+    · rw [List.mem_singleton] at hx; subst hx; exact hpad
+    · exact hmap x hx
+  | full =>
+    simp only [joinOnLeft] at hx
+    simp only [joinOnNames, List.length_append]
+    split at hx
+    · rw [List.mem_singleton] at hx; subst hx; exact hpad
+    · exact hmap x hx
+  | semi =>
+    simp only [joinOnLeft] at hx
+    simp only [joinOnNames]
+    split at hx
+    · cases hx
+    · rw [List.mem_singleton] at hx; subst hx; exact hl
+  | anti =>
+    simp only [joinOnLeft] at hx
+    simp only [joinOnNames]
+    split at hx
+    · rw [List.mem_singleton] at hx; subst hx; exact hl
+    · cases hx
+
+/-- the width theorem of the join on a condition (C15.joinOn_rows_width) -/
+theorem joinOnRows_width (how : How) (e : Expr) (lnames rnames : List String) (ls rs out : List Row)
+    (hl : ∀ r ∈ ls, r.length = lnames.length) (hr : ∀ r ∈ rs, r.length = rnames.length)
+    (h : joinOnRows how e lnames.length rnames.length ls rs = .ok out) :
+    ∀ r ∈ out, r.length = (joinOnNames how lnames rnames).length := by
+  obtain ⟨m, _, rfl⟩ := joinOnRows_ok h
+  have hper : ∀ x ∈ ((ls.zip m).flatMap fun (l, ms) =>
+      joinOnLeft how rnames.length l ((rs.zip ms).filterMap fun (r, b) => if b then some r else none)),
+      x.length = (joinOnNames how lnames rnames).length := by
+    intro x hx
+    obtain ⟨⟨l, ms⟩, hz, hx⟩ := List.mem_flatMap.mp hx
+    exact joinOnLeft_width how lnames rnames l _ (hl l (List.of_mem_zip hz).1)
+      (fun p hp => hr p (partners_mem rs ms p hp)) x hx
+  have hun : ∀ x ∈ (rs.zipIdx.filterMap fun (r, j) =>
+      if m.any (fun ms => ms.getD j false) then none else some (nullRow lnames.length ++ r)),
+      x.length = lnames.length + rnames.length := by
+    intro x hx
+    obtain ⟨⟨r, j⟩, hz, hf⟩ := List.mem_filterMap.mp hx
+    dsimp only at hf
+    split at hf
+    · cases hf
+    · cases hf
+      have hmem : r ∈ rs := by
+        have := List.mem_map_of_mem (f := Prod.fst) hz
+        rwa [List.zipIdx_map_fst] at this
+      rw [List.length_append, nullRow_length, hr r hmem]
+  intro r hmem
+  cases how with
+  | right =>
+    rcases List.mem_append.mp hmem with hm | hm
+    · exact hper r hm
+    · simpa [joinOnNames] using hun r hm
+  | full =>
+    rcases List.mem_append.mp hmem with hm | hm
+    · exact hper r hm
+    · simpa [joinOnNames] using hun r hm
+  | inner => exact hper r hmem
+  | left => exact hper r hmem
+  | semi => exact hper r hmem
+  | anti => exact hper r hmem
+
+theorem joinOn_consistent (d : DF) (how : How) (cond : Expr) (other : DF) (h : d.Consistent)
+    (ho : other.Consistent) : Agree d (.joinOn how cond other) := by
+  intro ns rs hn hr r hmem
+  simp only [opNames] at hn
+  cases hn
+  simp only [opRows] at hr
+  exact joinOnRows_width how cond d.names other.names d.rows other.rows rs h ho hr r hmem
+
+/-- splitting the first components of a list by a test on the second ones: two sublists whose lengths add up -/
+theorem split_by_test {α β : Type} (p : β → Bool) : ∀ (zs : List (α × β)),
+    (zs.flatMap fun (x : α × β) => if p x.2 then [] else [x.1]).Sublist (zs.map (·.1)) ∧
+    (zs.flatMap fun (x : α × β) => if p x.2 then [x.1] else []).Sublist (zs.map (·.1)) ∧
+    (zs.flatMap fun (x : α × β) => if p x.2 then [] else [x.1]).length +
+      (zs.flatMap fun (x : α × β) => if p x.2 then [x.1] else []).length = zs.length := by
+  intro zs
+  induction zs with
+  | nil => simp
+  | cons z zs ih =>
+    obtain ⟨h1, h2, h3⟩ := ih
+    simp only [List.flatMap_cons, List.map_cons, List.length_append, List.length_cons]
+    cases hp : p z.2
+    · refine ⟨by simpa using h1.cons_cons z.1, by simpa using h2.cons z.1, ?_⟩
+      simp only [Bool.false_eq_true, if_false, List.length_cons, List.length_nil]
+      omega
+    · refine ⟨by simpa using h1.cons z.1, by simpa using h2.cons_cons z.1, ?_⟩
+      simp only [if_true, List.length_cons, List.length_nil]
+      omega
+
+/-- semi and anti joins on a condition split the left rows (C15.joinOn_semi_anti_partition) -/
+theorem joinOnRows_semi_anti (e : Expr) (ln rn : Nat) (ls rs semi anti : List Row)
+    (hs : joinOnRows .semi e ln rn ls rs = .ok semi) (ha : joinOnRows .anti e ln rn ls rs = .ok anti) :
+    semi.Sublist ls ∧ anti.Sublist ls ∧ semi.length + anti.length = ls.length := by
+  obtain ⟨m, hm, rfl⟩ := joinOnRows_ok hs
+  obtain ⟨m', hm', rfl⟩ := joinOnRows_ok ha
+  rw [hm] at hm'
+  cases hm'
+  have hlen : ls.length ≤ m.length := Nat.le_of_eq (mapM_ok_length hm).symm
+  obtain ⟨h1, h2, h3⟩ := split_by_test (α := Row)
+    (fun ms : List Bool => ((rs.zip ms).filterMap fun (x : Row × Bool) => if x.2 then some x.1 else none).isEmpty)
+    (ls.zip m)
+  rw [List.map_fst_zip hlen] at h1 h2
+  rw [List.length_zip, Nat.min_eq_left hlen] at h3
+  exact ⟨h1, h2, h3⟩
+
 theorem union_consistent (d : DF) (other : DF) (h : d.Consistent) (ho : other.Consistent) :
     Agree d (.union other) := by
   intro ns rs hn hr r hmem
